@@ -11,7 +11,10 @@ import (
 // reported once with group "any"; a finding that needs a dynamic message says so
 // (suffix dyn) and is folded into the plain one when that fires too; findings in
 // the concurrent-pair and gc cases are reported only when no single-RPC case of
-// the same transport, direction and clause fails (cross-talk is always reported).
+// the same transport, direction and clause fails (cross-talk is always reported);
+// so are findings with a fresh or reused receive destination (the junk-filled
+// destination is the plain case). A cloner configuration of the in-process
+// channel is part of the transport label: inproc[clonefunc].
 
 func kindLabel(k kase) string {
 	kind := k.RPC.Kind
@@ -24,6 +27,9 @@ func kindLabel(k kase) string {
 	if k.Reuse {
 		kind += "+reuse"
 	}
+	if k.Dest != "" {
+		kind += "+dest=" + k.Dest
+	}
 	if k.Cut != nil {
 		// the reply is cut: where and how is part of the class, the offset is not
 		kind += "+cut(" + k.Cut.Where + "," + k.Cut.Ending + ")"
@@ -31,13 +37,24 @@ func kindLabel(k kase) string {
 	return kind
 }
 
-func classKey(k kase, f finding) string {
-	return fmt.Sprintf("C01|%s|%s|%s|%s", k.Transport, kindLabel(k), f.Dir, f.Clause)
+// trLabel: the transport and, for the in-process channel, its cloner
+// configuration when one is set: a different configuration is different code.
+func trLabel(k kase) string {
+	if k.Cloner != "" {
+		return k.Transport + "[" + k.Cloner + "]"
+	}
+	return k.Transport
 }
 
-func baseKey(k kase, f finding) string { return k.Transport + "|" + f.Dir + "|" + f.Clause }
+func classKey(k kase, f finding) string {
+	return fmt.Sprintf("C01|%s|%s|%s|%s", trLabel(k), kindLabel(k), f.Dir, f.Clause)
+}
 
-func primary(k kase) bool { return k.RPC2 == nil && !k.GC && !k.Reuse && k.Cut == nil }
+func baseKey(k kase, f finding) string { return trLabel(k) + "|" + f.Dir + "|" + f.Clause }
+
+func primary(k kase) bool {
+	return k.RPC2 == nil && !k.GC && !k.Reuse && k.Cut == nil && k.Dest == ""
+}
 
 func plain(k kase) bool { return k.SendRep == "gen" && k.RecvRep == "gen" }
 
@@ -144,7 +161,8 @@ func rank(k kase) []int {
 	if k.Cut != nil {
 		pair, off, end = 4, k.Cut.Off, endingIdx(k.Cut.Ending)
 	}
-	return []int{pair, herr, n, shapeByName[k.Shape].Index, dyn, kindIdx(k.RPC.Kind), off, end}
+	destIdx := map[string]int{"": 0, "fresh": 1, "reuse": 2}[k.Dest]
+	return []int{pair, clonerIdx(k.Cloner), destIdx, herr, n, shapeByName[k.Shape].Index, dyn, kindIdx(k.RPC.Kind), off, end}
 }
 
 func lessCase(x, y kase) bool {
